@@ -9,6 +9,12 @@ CLAIMED = {
    text="Every interleaving, up to the stated preemption bound per scenario (quick: 2, thorough: 3-5), of 2-3 goroutines running real read-only queries (Loop/Polygon ContainsPoint, Contains/IntersectsCell, loop relations, ContainsPointQuery, CrossingEdgeQuery, closest/furthest EdgeQuery) on fresh shared geometry whose index is unbuilt, built, or becomes built mid-flight, is executed on the implementation; each execution is checked for serial answers, panics, deadlock, a sequentially-equal final index and happens-before races on the hooked shared state.",
    note="Sequentially consistent interleavings at sync/atomic operations and verifAccess hooks only (weak-memory behaviour is represented by the race check); unhooked shared locations are covered only by the non-exhaustive free-running -race pass; bounded number of threads/ops per scenario.",
    design="DESIGN.md §3.4, §6 C14"),
+
+ "C13": dict(level="model_checking", engine="E2 opseq (+E1 shim for deadlock detection)",
+   technique="explicit-state model checking: breadth-first search over operation histories on the real objects (replay-from-scratch successors, states merged on the implementation's own internal state), differential oracle against fresh objects; full no-merge enumeration for query-object reuse",
+   text="All histories up to the stated depth over the alphabets add-shape/build/reset/query-panel (ShapeIndex), invert/query (Loop with 8/40/100 vertices, Polygon with hole / two shells) and FindEdges/Distance/IsDistanceLess/IsDistanceGreater/conservative tests on one reused Closest/FurthestEdgeQuery, CrossingEdgeQuery and ContainsPointQuery are executed on the implementation; after each history the last answer must equal the answer of fresh objects holding the same geometry and user options; deadlock and non-termination are detected structurally through the sync shim.",
+   note="Bounded depth and alphabets; Remove is outside the property's alphabet; state merging uses a dump of the implementation's internal index state (over-fine, so it can only cost time).",
+   design="DESIGN.md §3.5, §6 C13"),
 }
 
 PLANNED = {  # not yet claimed: each gets a reason in not_applicable until its check is committed
